@@ -5,9 +5,51 @@ use rand::Rng;
 use serde_json::json;
 use std::path::PathBuf;
 
-fn run<V: Fv>(seed: u64, keyid: usize, nsig: usize, out: &mut Shards) {
+/// Selection only: among candidate keys (structured seeds [i; 32] and random ones) the one whose signatures' mean ||s2||^2, over a
+/// few signatures, departs most from n sigma^2.  A fault of the tree construction that depends on the key (a branch taken for one
+/// key in twenty) is invisible under a random key; the statistics themselves are then computed by TLC on FRESH signatures of the
+/// selected key, so the selection does not bias them.
+fn most_deviating_key<V: Fv>(seed: u64) -> [u8; 32] {
+    use rand::RngCore;
+    let mut rng = rng_for(seed, &format!("c10-select-{}", V::N));
+    let nstruct = if V::N == 512 { 40 } else { 12 };
+    let mut cands: Vec<[u8; 32]> = (0..nstruct).map(|i| [i as u8; 32]).collect();
+    for _ in 0..(if V::N == 512 { 24 } else { 4 }) {
+        let mut s = [0u8; 32];
+        rng.fill_bytes(&mut s);
+        cands.push(s);
+    }
+    let sigma: f64 = if V::N == 512 { 165.7366171829776 } else { 168.38857144654395 };
+    let chunks: Vec<Vec<[u8; 32]>> = cands.chunks((cands.len() + 15) / 16).map(|c| c.to_vec()).collect();
+    let hs: Vec<_> = chunks.into_iter().map(|ch| std::thread::spawn(move || {
+        ch.iter().map(|s| {
+            let (sk, _) = V::keygen(*s);
+            let mut acc = 0f64;
+            let m = 12;
+            for i in 0..m {
+                let sig = V::sig_to_bytes(&V::sign(format!("selection {}", i).as_bytes(), &sk));
+                if let Some(s2) = falcon_rust::verif::decompress(&sig[41..], V::N) {
+                    acc += s2.iter().map(|&x| (x as f64) * (x as f64)).sum::<f64>();
+                }
+            }
+            (*s, (acc / (m as f64) / (V::N as f64 * sigma * sigma) - 1.0).abs())
+        }).collect::<Vec<_>>()
+    })).collect();
+    let mut best = ([0u8; 32], -1.0f64);
+    for h in hs {
+        for (s, dev) in h.join().unwrap() {
+            if dev > best.1 {
+                best = (s, dev);
+            }
+        }
+    }
+    eprintln!("[c10] n={} selected key seed starts {:?}: mean ||s2||^2 off by {:.1}% over 12 signatures", V::N, &best.0[..2], best.1 * 100.0);
+    best.0
+}
+
+fn run<V: Fv>(seed: u64, keyid: usize, nsig: usize, out: &mut Shards, key_seed: Option<[u8; 32]>) {
     let mut rng = rng_for(seed, &format!("c10-{}-{}", V::N, keyid));
-    let (sk, pk) = V::keygen(rng.gen());
+    let (sk, pk) = V::keygen(key_seed.unwrap_or_else(|| rng.gen()));
     let b0 = V::sk_b0(&sk);
     let g: Vec<i16> = b0[0].clone();
     let f: Vec<i16> = b0[1].iter().map(|x| -x).collect();
@@ -58,10 +100,21 @@ pub fn c10(args: &Args) {
     let keys = args.num("--keys", 1) as usize;
     for kid in 0..keys {
         let mut out = Shards::create(&dir, &format!("mom512k{}", kid), shards);
-        run::<V512>(seed, kid, n512, &mut out);
+        run::<V512>(seed, kid, n512, &mut out, None);
         out.finish();
         let mut out = Shards::create(&dir, &format!("mom1024k{}", kid), shards);
-        run::<V1024>(seed, kid, n1024, &mut out);
+        run::<V1024>(seed, kid, n1024, &mut out, None);
+        out.finish();
+    }
+    // one more key per variant: the most deviating of a set of candidates (selection above), judged on fresh signatures
+    {
+        let s5 = most_deviating_key::<V512>(seed);
+        let mut out = Shards::create(&dir, &format!("mom512k{}", keys), shards);
+        run::<V512>(seed, keys, n512, &mut out, Some(s5));
+        out.finish();
+        let s10 = most_deviating_key::<V1024>(seed);
+        let mut out = Shards::create(&dir, &format!("mom1024k{}", keys), shards);
+        run::<V1024>(seed, keys, n1024, &mut out, Some(s10));
         out.finish();
     }
     println!("done");
